@@ -1,5 +1,6 @@
 import Csproto.Props.C03
 import Csproto.Bridge.Facts
+import Csproto.Bridge.WireFuncs
 /- axiom audit for C03 -/
 open Csproto
 #print axioms C03.step_safe
@@ -12,3 +13,12 @@ open Csproto
 #print axioms decodeVarint_ok
 #print axioms Bridge.maxFieldLen_ok
 #print axioms Bridge.maxTagValue_ok
+
+-- the wire primitives TRANSLATED from the Go source (Generated/WireFuncs.lean) compute what the model says
+#print axioms Csproto.Bridge.WireFuncs.EncodeVarint_ok
+#print axioms Csproto.Bridge.WireFuncs.EncodeVarint_short
+#print axioms Csproto.Bridge.WireFuncs.DecodeVarint_eq
+#print axioms Csproto.Bridge.WireFuncs.DecodeFixed32_ok
+#print axioms Csproto.Bridge.WireFuncs.DecodeFixed32_short
+#print axioms Csproto.Bridge.WireFuncs.DecodeFixed64_ok
+#print axioms Csproto.Bridge.WireFuncs.DecodeFixed64_short
